@@ -12,8 +12,8 @@ namespace RaftLog
 abbrev sized (rs : List Record) : List (Record × Nat) :=
   rs.map (fun r => (r, (encRecord r).length))
 
-@[simp] theorem encAll_nil : encAll [] = [] := rfl
-@[simp] theorem encAll_cons (r : Record) (rs : List Record) :
+@[simp] theorem encAll_nilP : encAll [] = [] := rfl
+@[simp] theorem encAll_consP (r : Record) (rs : List Record) :
     encAll (r :: rs) = encRecord r ++ encAll rs := rfl
 
 theorem encAll_appendP (as bs : List Record) : encAll (as ++ bs) = encAll as ++ encAll bs := by
@@ -36,7 +36,7 @@ theorem AllWF.mk_cons {r : Record} {rs : List Record} (h1 : r.WF) (h2 : AllWF rs
 theorem encRecord_length (r : Record) : (encRecord r).length = 12 + (encBody r).length := by
   simp [encRecord]; omega
 
-theorem encRecord_length_pos (r : Record) : 0 < (encRecord r).length := by
+theorem encRecord_length_posP (r : Record) : 0 < (encRecord r).length := by
   rw [encRecord_length]; omega
 
 theorem encRecord_length_ge (r : Record) : 12 ≤ (encRecord r).length := by
@@ -44,7 +44,7 @@ theorem encRecord_length_ge (r : Record) : 12 ≤ (encRecord r).length := by
 
 theorem encRecord_ne_nil (r : Record) : encRecord r ≠ [] := by
   intro h
-  have := encRecord_length_pos r
+  have := encRecord_length_posP r
   rw [h] at this
   simp at this
 
@@ -52,8 +52,8 @@ theorem encAll_length_geP (rs : List Record) : rs.length ≤ (encAll rs).length 
   induction rs with
   | nil => simp
   | cons r rs ih =>
-    have := encRecord_length_pos r
-    simp only [encAll_cons, List.length_append, List.length_cons]
+    have := encRecord_length_posP r
+    simp only [encAll_consP, List.length_append, List.length_cons]
     omega
 
 /-! ## `parseLoop`: one step, fuel independence -/
@@ -116,7 +116,7 @@ theorem parseLoop_fuel (f g : Nat) (bs : Bytes) (hf : bs.length < f) (hg : bs.le
         | invalid => rw [parseLoop_invalid hd, parseLoop_invalid hd]
         | ok r rest =>
           have hl := decRecord_ok_length hd
-          have hp := encRecord_length_pos r
+          have hp := encRecord_length_posP r
           rw [parseLoop_ok hd, parseLoop_ok hd, ih g rest (by omega) (by omega)]
 
 theorem parseChunk_eq_fuel (f : Nat) (bs : Bytes) (hf : bs.length < f) :
@@ -132,7 +132,7 @@ theorem parseChunk_ok {bs : Bytes} {r : Record} {rest : Bytes} (h : decRecord bs
     parseChunk bs = ((r, (encRecord r).length) :: (parseChunk rest).1,
       (parseChunk rest).2.1, (parseChunk rest).2.2) := by
   have hl := decRecord_ok_length h
-  have hp := encRecord_length_pos r
+  have hp := encRecord_length_posP r
   unfold parseChunk
   rw [parseLoop_ok h, parseLoop_fuel bs.length (rest.length + 1) rest (by omega) (by omega)]
 
@@ -156,7 +156,7 @@ theorem parseChunk_encAll_append {rs : List Record} (h : AllWF rs) (tail : Bytes
   | nil => simp [sized]
   | cons r rs ih =>
     obtain ⟨h1, h2⟩ := h.cons
-    rw [encAll_cons, List.append_assoc, parseChunk_cons h1, ih h2]
+    rw [encAll_consP, List.append_assoc, parseChunk_cons h1, ih h2]
     simp [sized]
 
 theorem parse_encAll' {rs : List Record} (h : AllWF rs) :
@@ -184,12 +184,12 @@ theorem parseChunk_canon (bs : Bytes) :
     cases hd : decRecord bs with
     | ok r rest =>
       have hl := decRecord_ok_length hd
-      have hp := encRecord_length_pos r
+      have hp := encRecord_length_posP r
       obtain ⟨rs, h1, h2, h3, h4⟩ := ih rest.length (by omega) rest rfl
       obtain ⟨e, wf⟩ := record_canon hd
       refine ⟨r :: rs, ?_, AllWF.mk_cons wf h2, ?_, ?_⟩
       · rw [parseChunk_ok hd, h1]; rfl
-      · rw [parseChunk_ok hd]; simp only [encAll_cons, List.append_assoc]; rw [← h3]; exact e
+      · rw [parseChunk_ok hd]; simp only [encAll_consP, List.append_assoc]; rw [← h3]; exact e
       · rw [parseChunk_ok hd]; exact h4
     | eof =>
       cases bs with
@@ -314,7 +314,7 @@ theorem sumNat_sized (rs : List Record) :
   induction rs with
   | nil => rfl
   | cons r rs ih =>
-    simp only [sized, List.map_cons, sumNatP, encAll_cons, List.length_append] at ih ⊢
+    simp only [sized, List.map_cons, sumNatP, encAll_consP, List.length_append] at ih ⊢
     rw [ih]
 
 theorem sized_map_fst (rs : List Record) : (sized rs).map (·.1) = rs := by
